@@ -138,11 +138,16 @@ theorem volumePoint_unit (pu pv pw d : ℕ) (Uu Uv Uw : List K) (su sv sw : ℕ)
 /-! ### the reimported shape evaluates to the same points -/
 
 /-- what makes `evaluate_single` of a curve record meaningful on its closed domain: the setters' guard on the knot
-    vector, a non-empty last span, control points of one length -/
+    vector, a non-empty last span, control points of one length, and – for a rational record – POSITIVE weights
+    (`wpos`: the setters also accept weights of mixed sign, but then the weight function can vanish inside the domain
+    and `evaluate_single` / `derivatives` raise `ZeroDivisionError` on the exported AND on the reimported shape, while
+    the model's `x / 0 = 0` would go on; the hypothesis is the guard of the driver ops `ceval`, `cders`, … and is not
+    used by the proofs) -/
 structure Crv.EvalOk (d : ℕ) (c : Crv K) : Prop where
   kv : kvOk c.degree c.knots c.net.length = true
   last : fnOf c.knots (c.net.length - 1) < fnOf c.knots c.net.length
   net : Geomdl.NetOk d c.net
+  wpos : c.rational = true → ∀ pt ∈ c.net, 0 < pt.getLastD 0
 
 structure Srf.EvalOk (d : ℕ) (s : Srf K) : Prop where
   len : s.net.length = s.sizeU * s.sizeV
@@ -151,6 +156,7 @@ structure Srf.EvalOk (d : ℕ) (s : Srf K) : Prop where
   lastU : fnOf s.knotsU (s.sizeU - 1) < fnOf s.knotsU s.sizeU
   lastV : fnOf s.knotsV (s.sizeV - 1) < fnOf s.knotsV s.sizeV
   net : Geomdl.NetOk d s.net
+  wpos : s.rational = true → ∀ pt ∈ s.net, 0 < pt.getLastD 0
 
 structure Vol.EvalOk (d : ℕ) (x : Vol K) : Prop where
   len : x.net.length = x.sizeU * x.sizeV * x.sizeW
@@ -161,6 +167,7 @@ structure Vol.EvalOk (d : ℕ) (x : Vol K) : Prop where
   lastV : fnOf x.knotsV (x.sizeV - 1) < fnOf x.knotsV x.sizeV
   lastW : fnOf x.knotsW (x.sizeW - 1) < fnOf x.knotsW x.sizeW
   net : Geomdl.NetOk d x.net
+  wpos : x.rational = true → ∀ pt ∈ x.net, 0 < pt.getLastD 0
 
 /-- **curves**: the rational form the readers return, evaluated at the normalised parameter, gives the point of
     the exported curve, for every parameter of the closed domain -/
